@@ -384,6 +384,69 @@ class CaptureSpec(Spec):
                 'nontrivial': n_blocks >= 2}
 
 
+class FutureSpec(Spec):
+    """a program that starts with a __future__ import is one program: the import governs every later statement, also behind
+    the wants that cut the doctest into separately compiled parts (finding F41)"""
+    prop = 'C01'
+    name = 'future-import'
+    title = 'programs starting with from __future__ import annotations, wants at every position'
+    max_len = 5
+
+    def __init__(self):
+        self.rule = ('program = future import; print; function with undefined annotations (one line / def + body, chevron or dots '
+                     'continuation); print of its annotations; x want after each printing statement {yes, no} x blank line after the '
+                     'first want {yes, no} x docstring indentation {0, 4}; trace, stdout and verdict as the plain program compiled as '
+                     'one unit; non-trivial = a want stands between the import and the annotated function')
+
+    def histories(self, stats):
+        for w1 in (False, True):
+            for w3 in (False, True):
+                for blank in (False, True):
+                    for shape in ('oneline', 'chev', 'dots'):
+                        for ind in (0, 4):
+                            yield (w1, w3, blank, shape, ind)
+
+    def hist_cost(self, hist):
+        return 0
+
+    def run_case(self, hist):
+        w1, w3, blank, shape, ind = hist
+        stmts = [['from __future__ import annotations'], ['P(1)'],
+                 ['def fa(x: Undefined2) -> Undefined3: return T(2)'] if shape == 'oneline' else
+                 ['def fa(x: Undefined2) -> Undefined3:', '    return T(2)'],
+                 ['fa(0)'], ["print(sorted(fa.__annotations__.items()))"]]
+        plain = '\n'.join(l for st in stmts for l in st) + '\n'
+        ns = harness.new_namespace()
+        import io
+        import contextlib
+        buf = io.StringIO()
+        with contextlib.redirect_stdout(buf):
+            exec(compile(plain, '<plain>', 'exec'), ns)
+        exp_out, exp_trace = buf.getvalue(), list(ns['TRACE'])
+        lines = []
+        for i, st in enumerate(stmts):
+            ps2 = '... ' if shape == 'dots' else '>>> '
+            lines += ['>>> ' + st[0]] + [ps2 + l for l in st[1:]]
+            if i == 1 and w1:
+                lines.append('p1')
+                if blank:
+                    lines.append('')
+            if i == 4 and w3:
+                lines.append(exp_out.split('\n')[1])
+        text = '\n'.join(' ' * ind + l if l else l for l in lines)
+        r = harness.run_doctest(text)
+        atoms = []
+        if r.raised is not None:
+            atoms.append({'sig': 'future:run-raised:' + type(r.raised).__name__, 'msg': repr(r.raised)})
+        else:
+            v = harness.verdict_of(r.summary)
+            if v != 'passed':
+                atoms.append({'sig': 'future:verdict:%s:%s' % (v, r.exc_type), 'msg': 'the plain program runs; the doctest is %s (%s: %s)' % (v, r.exc_type, str(r.exc)[:200])})
+            elif r.trace != exp_trace or r.stdout != exp_out:
+                atoms.append({'sig': 'future:behaviour-differs', 'msg': 'trace %r stdout %r, plain program %r %r' % (r.trace, r.stdout, exp_trace, exp_out)})
+        return {'atoms': atoms, 'outcome': 'ok' if not atoms else 'bad', 'case': {'doctest': text}, 'nontrivial': int(w1)}
+
+
 def specs(tier):
     std = [(0, False)]
     if tier == 'thorough':
@@ -395,11 +458,11 @@ def specs(tier):
                 ShiftSpec('prog-shift', 3, 5, std),
                 ModuleBoundSpec('prog-module', 2, 99, std),
                 ModuleBoundSpec('prog-module-len3', 3, 2, std, min_items=3),
-                GoogleBlockSpec('prog-google', 2, 99, std)]
+                GoogleBlockSpec('prog-google', 2, 99, std), FutureSpec()]
     return [CaptureSpec(5),
             ProgSpec('prog-len2', 2, 99, std),
             ProgSpec('prog-frames', 2, 3, [f for f in progs.FRAMES if f != (0, False)]),
             ProgSpec('prog-len3', 3, 2, std, min_items=3),
             ShiftSpec('prog-shift', 3, 4, std),
             ModuleBoundSpec('prog-module', 2, 3, std),
-            GoogleBlockSpec('prog-google', 2, 3, std)]
+            GoogleBlockSpec('prog-google', 2, 3, std), FutureSpec()]
